@@ -11,6 +11,7 @@ from fractions import Fraction
 BANNER = re.compile(r'^\s*\*{2,}\s*(\S[^*]*?)\s*\*{2,}\s*$')
 BOXLINE = re.compile(r'^\s*\*+\s*$')
 BOXTITLE = re.compile(r'^\s*\*\s{1,}(\S.*?\S)\s{1,}\*\s*$')
+NONNUM = ('N/A', 'nan', '-nan', 'inf', '-inf')     # what a numeric column shows when there is no number
 NUM = re.compile(r'^[-+]?(\d[\d,]*\.?\d*|\.\d+)([eE][-+]?\d+)?$')
 
 
@@ -71,7 +72,7 @@ class Report:
         for i in range(start, end):
             ln = self.lines[i]
             toks = [t for t in re.split(r'[\s|]+', ln.strip()) if t]
-            if toks and all(is_number(t) or t == 'N/A' for t in toks):
+            if toks and all(is_number(t) or t in NONNUM for t in toks) and any(is_number(t) for t in toks):
                 rows.append(toks)
                 started = True
             elif started:
